@@ -37,11 +37,11 @@ func (fr *Frame) instr(ins ssa.Instruction, st *State, g *Term) *Term {
 		r := c.allocRef(st, g, "new."+x.Name())
 		fr.vals[x] = tv(r)
 		if isBigInt(el) {
-			c.heapSet(st, c.bigvalName(), tStore(c.heapGet(st, c.bigvalName()), r, intLit(0)))
+			c.heapSet(st, c.bigvalName(), c.sto(c.heapGet(st, c.bigvalName()), r, intLit(0)))
 			return nil
 		}
 		if isBigFloat(el) {
-			c.heapSet(st, c.realvalName(), tStore(c.heapGet(st, c.realvalName()), r, mk(SReal, "0.0")))
+			c.heapSet(st, c.realvalName(), c.sto(c.heapGet(st, c.realvalName()), r, mk(SReal, "0.0")))
 			return nil
 		}
 		loc := c.derefLoc(tv(r), x.Type())
@@ -95,10 +95,10 @@ func (fr *Frame) instr(ins ssa.Instruction, st *State, g *Term) *Term {
 			return ng
 		default:
 			// string indexing
-			c.declareFun("str.at", []Sort{SStr, SInt}, SInt)
+			c.declareFun("gstr.at", []Sort{SStr, SInt}, SInt)
 			s := fr.term(x.X)
-			ng := fr.mayPanicIf(g, mk(SBool, fmt.Sprintf("(or (< %s 0) (>= %s (str.len %s)))", idx.S, idx.S, s.S)), st, "index", x.Pos(), "string index out of range")
-			v := app(SInt, "str.at", s, idx)
+			ng := fr.mayPanicIf(g, mk(SBool, fmt.Sprintf("(or (< %s 0) (>= %s (gstr.len %s)))", idx.S, idx.S, s.S)), st, "index", x.Pos(), "string index out of range")
+			v := app(SInt, "gstr.at", s, idx)
 			c.assumeG(g, c.typeConstraint(types.Typ[types.Uint8], v))
 			fr.vals[x] = tv(v)
 			return ng
@@ -237,8 +237,8 @@ func (fr *Frame) instr(ins ssa.Instruction, st *State, g *Term) *Term {
 			return nil
 		}
 		// string index
-		c.declareFun("str.at", []Sort{SStr, SInt}, SInt)
-		fr.vals[x] = tv(app(SInt, "str.at", fr.term(x.X), fr.term(x.Index)))
+		c.declareFun("gstr.at", []Sort{SStr, SInt}, SInt)
+		fr.vals[x] = tv(app(SInt, "gstr.at", fr.term(x.X), fr.term(x.Index)))
 		return nil
 	case *ssa.Slice:
 		return fr.sliceOp(x, st, g)
@@ -327,10 +327,18 @@ func (fr *Frame) unop(x *ssa.UnOp, st *State, g *Term) *Term {
 			fr.vals[x] = c.freshVal(st, g, x.Type(), x.Name())
 			return ng
 		}
+		if _, isGlobal := x.X.(*ssa.Global); isGlobal {
+			c.assumeGlobalFacts(st, loc.Name)
+		}
 		v := c.define(x.Name(), c.load(st, loc))
+		c.bornNow(v)
 		gg := orG(ng, g)
 		c.assumeG(gg, c.typeConstraint(x.Type(), v))
-		c.assumeAllocated(st, gg, x.Type(), v)
+		if loc.Kind == LCell {
+			c.assumeLoadedRef(st, loc.Name, x.Type(), v)
+		} else {
+			c.assumeAllocated(st, gg, x.Type(), v)
+		}
 		fr.vals[x] = tv(v)
 		return ng
 	case token.NOT:
@@ -376,7 +384,7 @@ func (fr *Frame) binop(x *ssa.BinOp, st *State, g *Term) *Term {
 	case token.LSS, token.LEQ, token.GTR, token.GEQ:
 		op := map[token.Token]string{token.LSS: "<", token.LEQ: "<=", token.GTR: ">", token.GEQ: ">="}[x.Op]
 		if a.Sort == SStr {
-			c.declareFun("str.lt", []Sort{SStr, SStr}, SBool)
+			c.declareFun("gstr.lt", []Sort{SStr, SStr}, SBool)
 			c.unsupported("string ordering at %s", c.posOf(x.Pos()))
 			res = c.fresh("strcmp", SBool)
 		} else {
@@ -384,9 +392,9 @@ func (fr *Frame) binop(x *ssa.BinOp, st *State, g *Term) *Term {
 		}
 	case token.ADD:
 		if a.Sort == SStr {
-			c.declareFun("str.cat", []Sort{SStr, SStr}, SStr)
-			res = app(SStr, "str.cat", a, b)
-			c.assume(tEq(app(SInt, "str.len", res), tAdd(app(SInt, "str.len", a), app(SInt, "str.len", b))))
+			c.declareFun("gstr.cat", []Sort{SStr, SStr}, SStr)
+			res = app(SStr, "gstr.cat", a, b)
+			c.assume(tEq(app(SInt, "gstr.len", res), tAdd(app(SInt, "gstr.len", a), app(SInt, "gstr.len", b))))
 		} else if isReal {
 			res = app(SReal, "+", a, b)
 		} else {
@@ -525,8 +533,8 @@ func (fr *Frame) convert(x *ssa.Convert, st *State, g *Term) Val {
 		case fb.Info()&types.IsString != 0 && tb.Info()&types.IsString != 0:
 			return v
 		case fb.Info()&types.IsInteger != 0 && tb.Info()&types.IsString != 0:
-			c.declareFun("str.fromRune", []Sort{SInt}, SStr)
-			return tv(app(SStr, "str.fromRune", v.T))
+			c.declareFun("gstr.fromRune", []Sort{SInt}, SStr)
+			return tv(app(SStr, "gstr.fromRune", v.T))
 		case tb.Kind() == types.UnsafePointer || fb.Kind() == types.UnsafePointer:
 			return v
 		}
@@ -534,19 +542,19 @@ func (fr *Frame) convert(x *ssa.Convert, st *State, g *Term) Val {
 	// string <-> []byte
 	if _, ok := to.(*types.Slice); ok && fok && fb.Info()&types.IsString != 0 {
 		// fresh slice whose contents are a function of the string
-		c.declareFun("str.bytes", []Sort{SStr}, ArrSort(SInt, SInt))
+		c.declareFun("gstr.bytes", []Sort{SStr}, ArrSort(SInt, SInt))
 		r := c.allocRef(st, g, "strbytes."+x.Name())
 		en := c.elemName(SInt)
-		c.heapSet(st, en, tStore(c.heapGet(st, en), r, app(ArrSort(SInt, SInt), "str.bytes", v.T)))
-		return tv(mk(SSlice, fmt.Sprintf("(mk-slice %s 0 (str.len %s))", r.S, v.T.S)))
+		c.heapSet(st, en, tStore(c.heapGet(st, en), r, app(ArrSort(SInt, SInt), "gstr.bytes", v.T)))
+		return tv(mk(SSlice, fmt.Sprintf("(mk-slice %s 0 (gstr.len %s))", r.S, v.T.S)))
 	}
 	if _, ok := from.(*types.Slice); ok && tok && tb.Info()&types.IsString != 0 {
-		c.declareFun("bytes.str", []Sort{ArrSort(SInt, SInt), SInt, SInt}, SStr)
+		c.declareFun("gbytes.str", []Sort{ArrSort(SInt, SInt), SInt, SInt}, SStr)
 		s := v.T
 		en := c.elemName(SInt)
 		arr := tSelect(c.heapGet(st, en), mk(SInt, "(s.arr "+s.S+")"))
-		r := app(SStr, "bytes.str", arr, mk(SInt, "(s.off "+s.S+")"), mk(SInt, "(s.len "+s.S+")"))
-		c.assumeG(g, tEq(app(SInt, "str.len", r), mk(SInt, "(s.len "+s.S+")")))
+		r := app(SStr, "gbytes.str", arr, mk(SInt, "(s.off "+s.S+")"), mk(SInt, "(s.len "+s.S+")"))
+		c.assumeG(g, tEq(app(SInt, "gstr.len", r), mk(SInt, "(s.len "+s.S+")")))
 		return tv(r)
 	}
 	c.warn("conversion %s -> %s treated as opaque", x.X.Type(), x.Type())
@@ -617,16 +625,16 @@ func (fr *Frame) sliceOp(x *ssa.Slice, st *State, g *Term) *Term {
 		fr.vals[x] = tv(c.define(x.Name(), mk(SSlice, fmt.Sprintf("(mk-slice %s %s (- %s %s))", r.S, lo.S, hi.S, lo.S))))
 		return ng
 	case *types.Basic: // string
-		c.declareFun("str.sub", []Sort{SStr, SInt, SInt}, SStr)
+		c.declareFun("gstr.sub", []Sort{SStr, SInt, SInt}, SStr)
 		s := fr.term(x.X)
 		if x.High != nil {
 			hi = fr.term(x.High)
 		} else {
-			hi = app(SInt, "str.len", s)
+			hi = app(SInt, "gstr.len", s)
 		}
-		ng := fr.mayPanicIfNew(g, mk(SBool, fmt.Sprintf("(or (< %s 0) (> %s %s) (> %s (str.len %s)))", lo.S, lo.S, hi.S, hi.S, s.S)), st, "slice", x.Pos(), "string slice bounds out of range")
-		r := app(SStr, "str.sub", s, lo, hi)
-		c.assumeG(g, tEq(app(SInt, "str.len", r), tSub(hi, lo)))
+		ng := fr.mayPanicIfNew(g, mk(SBool, fmt.Sprintf("(or (< %s 0) (> %s %s) (> %s (gstr.len %s)))", lo.S, lo.S, hi.S, hi.S, s.S)), st, "slice", x.Pos(), "string slice bounds out of range")
+		r := app(SStr, "gstr.sub", s, lo, hi)
+		c.assumeG(g, tEq(app(SInt, "gstr.len", r), tSub(hi, lo)))
 		fr.vals[x] = tv(r)
 		return ng
 	}
